@@ -63,6 +63,7 @@ type stub struct {
 	hang    time.Duration
 	srv     *httptest.Server
 	decErr  string
+	errBodies []string
 }
 
 func (s *stub) handler(w http.ResponseWriter, r *http.Request) {
@@ -95,6 +96,12 @@ func (s *stub) handler(w http.ResponseWriter, r *http.Request) {
 	rq := request{seq: len(s.reqs), outcome: outcome, points: pts, raw: fmt.Sprintf("%x", hashB(body))}
 	s.reqs = append(s.reqs, rq)
 	hang := s.hang
+	// what an error answer carries is whatever sits in front of the endpoint (plain text, nothing, a JSON error object, the
+	// gateway's own publish report with zeros, HTML): a non-2xx answer is a failure whatever its body says
+	errBody := "failed (scripted)"
+	if len(s.errBodies) > 0 {
+		errBody = s.errBodies[rq.seq%len(s.errBodies)]
+	}
 	s.mu.Unlock()
 	switch outcome {
 	case "200":
@@ -102,10 +109,10 @@ func (s *stub) handler(w http.ResponseWriter, r *http.Request) {
 		fmt.Fprintf(w, `{"Invalid":0,"Published":%d}`, len(pts))
 	case "400":
 		w.WriteHeader(400)
-		w.Write([]byte("bad request (scripted)"))
+		w.Write([]byte(errBody))
 	case "503":
 		w.WriteHeader(503)
-		w.Write([]byte("unavailable (scripted)"))
+		w.Write([]byte(errBody))
 	case "hang":
 		// nothing for longer than the client's timeout, then the connection goes away without an answer.  (Answering
 		// 200 "too late" is ambiguous: a client starved of CPU notices its own timeout late and may take that answer,
@@ -156,6 +163,10 @@ func TestPropGrafanaNet(t *testing.T) {
 		}
 		// a listener on this process's private loopback address: a route of an earlier case that is still retrying
 		// (or one of another check process) must not reach this case's server through a recycled port
+		for i, n := 0, rapid.IntRange(1, 3).Draw(t, "nerrbodies"); i < n; i++ {
+			st.errBodies = append(st.errBodies, rapid.SampledFrom([]string{"failed (scripted)", "", `{"message":"upstream unavailable"}`, `{"Invalid":0,"Published":0}`,
+				`{"Invalid":3,"Published":0,"ValidationErrors":{}}`, "null", "[]", "<html><body>502 Bad Gateway</body></html>", `"error"`}).Draw(t, "errbody"))
+		}
 		st.srv = httptest.NewUnstartedServer(http.HandlerFunc(st.handler))
 		if ln, lerr := net.Listen("tcp", ep.LoopIP()+":0"); lerr == nil {
 			st.srv.Listener.Close()
